@@ -25,6 +25,7 @@ from rawbus import METHOD_RETURN, ERROR, SIGNAL, F_REPLY_SERIAL, F_SENDER, F_PAT
 BUS = "org.freedesktop.DBus"
 MATCH_RULE = "type='signal',sender='org.freedesktop.DBus',interface='org.freedesktop.DBus',member='NameOwnerChanged'"
 ERR_PREFIX = "org.freedesktop.DBus.Error."
+TIMEOUT = 60.0     # generous: a loaded machine must not turn into a false alarm; nothing waits this long normally
 
 
 class Broken(Exception):
@@ -101,7 +102,7 @@ class Session:
         t_end = time.time() + 10
         while True:
             try:
-                return self.d.connect()
+                return self.d.connect(timeout=TIMEOUT)
             except (ConnectionRefusedError, FileNotFoundError):
                 if time.time() > t_end or not self.d.alive():
                     raise
@@ -111,7 +112,7 @@ class Session:
         return [(i, c) for i, c in enumerate(self.clients) if c is not None]
 
     def call(self, c, member, sig="", body=()):
-        r = c.call(member, sig, body)
+        r = c.call(member, sig, body, timeout=TIMEOUT)
         if r is None:
             raise Broken("no reply to %s (daemon alive: %s)" % (member, self.d.alive()))
         return r
@@ -120,7 +121,7 @@ class Session:
         """barrier every live connection, then canonicalise what each one got"""
         outs = []
         for i, c in self.live():
-            if c.barrier() is None:
+            if c.barrier(timeout=TIMEOUT) is None:
                 raise Broken("connection %d: no reply to the barrier (closed by the bus: %s)" % (i, c.closed))
             for m in c.inbox:
                 outs.append("%d>%s" % (i, self.canon_msg(i, m, op_serial if i == actor else None, op_kind)))
@@ -225,11 +226,11 @@ class Session:
         return self.d.stop()
 
 
-def _wait_reply_keep_position(conn, serial, timeout=5.0):
+def _wait_reply_keep_position(conn, serial, timeout=None):
     """like RawConn.wait_reply, but leaves the reply in the inbox (so that its position relative
     to the signals on the same socket stays observable) and returns it"""
     import time
-    t_end = time.time() + timeout
+    t_end = time.time() + (TIMEOUT if timeout is None else timeout)
     while True:
         for m in conn.inbox:
             if m.fields.get(F_REPLY_SERIAL) == serial and m.mtype in (METHOD_RETURN, ERROR):
